@@ -264,6 +264,17 @@ func c02RandomDNSReq(c *core.Ctx, l *c02List) *gen.Req {
 		q.Host = q.Host[:len(q.Host)-1]
 	case 2:
 		q.Host = q.Host + "x"
+	case 3:
+		// Names nobody validated: labels in front of a listed name that hold
+		// characters outside the host alphabet (a start-of-address mask does
+		// not span them).
+		q.Host = []string{"\u0440\u0435\u043a\u043b\u0430\u043c\u0430.", "*.", "a@b.", "x~y.", "a+b.", "_dmarc.", "a%20b."}[c.Rng.Intn(7)] + q.Host
+		c.Event("queries_with_unusual_labels_in_front_of_a_listed_name", 1)
+	case 4:
+		if c.Rng.Intn(2) == 0 {
+			// ... or that carry a port.
+			q.Host = q.Host + []string{":53", ":443"}[c.Rng.Intn(2)]
+		}
 	}
 
 	return q
@@ -496,6 +507,17 @@ func c02Run(c *core.Ctx, idx int) {
 				if want, got := re.MatchString(q.Host), nr.r.Match(req); want != got {
 					c.Violation("regexp-rule-differs-from-its-expression", nil, c02Witness{List: []string{nr.r.RuleText}, Request: q, Field: "Match"},
 						"rule %q Match(host name %q) = %v, the expression says %v", nr.r.RuleText, q.Host, got, want)
+				}
+			}
+			if l.exprs[nr.r.RuleText] == nil && !strings.HasPrefix(nr.spec.Pattern, "/") && !nr.spec.Badfilter {
+				// "match the hostname" as the independent matcher of C04
+				// understands it, where it has an opinion.
+				if w := ref.Match(nr.spec, q); w != ref.DontCare {
+					c.Eval(1)
+					if got := nr.r.Match(req); got != (w == ref.Yes) {
+						c.Violation("rule-match-differs-from-the-reference-matcher", nil, c02Witness{List: []string{nr.r.RuleText}, Request: q, Field: "Match", Got: got, Want: w == ref.Yes},
+							"rule %q Match(host name request %s) = %v, the reference matcher says %v", nr.r.RuleText, c01Short(q), got, w == ref.Yes)
+					}
 				}
 			}
 			if nr.r.Match(req) {
